@@ -418,9 +418,7 @@ Proof.
   cbn [fst]. apply inv_reset_none; auto.
 Qed.
 
-(* ---------- the memo is transparent ---------- *)
-Hypothesis Vf_ext : forall g p T T' P P', T == T' -> P == P' -> Vf g p T P == Vf g p T' P'.
-
+(* ---------- the memo: an entry is reused only for the same phase and for T, P within 1e-12 ---------- *)
 Lemma memo_get_in k m e : memo_get k m = Some e -> In (k, e) m.
 Proof.
   induction m as [|[j x] m IH]; simpl; intros H; try discriminate.
@@ -429,15 +427,36 @@ Proof.
   - right; auto.
 Qed.
 
+Definition near (x y : Q) : Prop := Qabs (x - y) < tp_tol.
+Lemma near_refl x : near x x.
+Proof.
+  unfold near. assert (E : x - x == 0) by ring. rewrite E. reflexivity.
+Qed.
+Lemma qltb_lt a b : qltb a b = true -> a < b.
+Proof.
+  unfold qltb. intros H. apply negb_true_iff in H. apply Qnot_le_lt. intros L.
+  apply Qle_bool_iff in L. congruence.
+Qed.
+Lemma qltb_refl_near x : qltb (Qabs (x - x)) tp_tol = true.
+Proof.
+  unfold qltb. apply negb_true_iff. destruct (Qle_bool tp_tol (Qabs (x - x))) eqn:E; auto.
+  apply Qle_bool_iff in E. pose proof (near_refl x) as N. unfold near in N.
+  exfalso. apply (Qlt_irrefl tp_tol). eapply Qle_lt_trans; eauto.
+Qed.
+
+Definition Vat h (pk : nat) (src : phsrc) (k : nat) (T P : Q) : Q :=
+  1000 * Vf (gid pkgs pk k) (base (src_phase h src)) T P.
+Definition cur_T h (vv : volview) := fst (gettp h (vv_tp vv)).
+Definition cur_P h (vv : volview) := snd (gettp h (vv_tp vv)).
 
 Lemma vfactor_ok h vv r k pk :
   vv_pkg vv = pk -> vrow_ok pk r ->
-  fst (vfactor Vf pkgs h vv r k) ==
-    1000 * Vf (gid pkgs pk k) (base (src_phase h (vr_src r))) (fst (gettp h (vv_tp vv))) (snd (gettp h (vv_tp vv)))
+  (exists T' P', near T' (cur_T h vv) /\ near P' (cur_P h vv) /\
+     fst (vfactor Vf pkgs h vv r k) == Vat h pk (vr_src r) k T' P')
   /\ vrow_ok pk (snd (vfactor Vf pkgs h vv r k))
   /\ vsrc (snd (vfactor Vf pkgs h vv r k)) = vsrc r.
 Proof.
-  intros PK OK. unfold vfactor. rewrite PK.
+  intros PK OK. unfold vfactor, Vat, cur_T, cur_P. rewrite PK.
   set (T := fst (gettp h (vv_tp vv))). set (P := snd (gettp h (vv_tp vv))).
   set (ph := src_phase h (vr_src r)).
   assert (FR : Qred (1000 * Vf (gid pkgs pk k) (base ph) T P) == 1000 * Vf (gid pkgs pk k) (base ph) T P
@@ -445,20 +464,22 @@ Proof.
                     ((k, mkme T P ph (Qred (1000 * Vf (gid pkgs pk k) (base ph) T P))) :: vr_memo r))).
   { split. apply Qred_correct. unfold vrow_ok. cbn [vr_memo]. constructor; auto.
     unfold entry_ok. cbn [snd fst me_V me_ph me_T me_P]. apply Qred_correct. }
+  destruct FR as (F1 & F2).
+  assert (FRESH : exists T' P', near T' T /\ near P' P /\
+            Qred (1000 * Vf (gid pkgs pk k) (base ph) T P) == 1000 * Vf (gid pkgs pk k) (base ph) T' P').
+  { exists T, P. split; [apply near_refl|split; [apply near_refl|exact F1]]. }
   destruct (memo_get k (vr_memo r)) as [e|] eqn:M.
-  - destruct (phase_eqb (me_ph e) ph && qeqb (me_T e) T && qeqb (me_P e) P) eqn:C; cbn [fst snd].
-    + apply andb_prop in C. destruct C as (C & CP). apply andb_prop in C. destruct C as (CH & CT).
-      apply phase_eqb_eq in CH. apply Qeq_bool_iff in CT. apply Qeq_bool_iff in CP.
+  - destruct (phase_eqb (me_ph e) ph && in_equilibrium (me_T e) (me_P e) T P) eqn:C; cbn [fst snd].
+    + apply andb_prop in C. destruct C as (CH & CE). unfold in_equilibrium in CE.
+      apply andb_prop in CE. destruct CE as (CT & CP).
+      apply phase_eqb_eq in CH. apply qltb_lt in CT. apply qltb_lt in CP.
       split; [|split; auto].
       pose proof (proj1 (Forall_forall _ _) OK _ (memo_get_in _ _ _ M)) as EO.
-      unfold entry_ok in EO; cbn [fst snd] in EO. rewrite EO, CH.
-      rewrite (Vf_ext _ _ _ _ _ _ CT CP). reflexivity.
-    + destruct FR as (F1 & F2). split; [exact F1|split; [exact F2|reflexivity]].
-  - cbn [fst snd]. destruct FR as (F1 & F2). split; [exact F1|split; [exact F2|reflexivity]].
+      unfold entry_ok in EO; cbn [fst snd] in EO.
+      exists (me_T e), (me_P e). split; [exact CT|split; [exact CP|]]. rewrite EO, CH. reflexivity.
+    + split; [exact FRESH|split; [exact F2|reflexivity]].
+  - cbn [fst snd]. split; [exact FRESH|split; [exact F2|reflexivity]].
 Qed.
-
-Definition Vcur h (vv : volview) (pk : nat) (src : phsrc) (k : nat) : Q :=
-  1000 * Vf (gid pkgs pk k) (base (src_phase h src)) (fst (gettp h (vv_tp vv))) (snd (gettp h (vv_tp vv))).
 
 Lemma vsrc_src a b : vsrc a = vsrc b -> vr_src a = vr_src b.
 Proof. unfold vsrc. intros H. inversion H. auto. Qed.
@@ -466,34 +487,39 @@ Proof. unfold vsrc. intros H. inversion H. auto. Qed.
 Lemma read_vrow_ok h vv pk vals : vv_pkg vv = pk -> forall r k0, vrow_ok pk r ->
   vrow_ok pk (snd (read_vrow Vf pkgs h vv r k0 vals)) /\
   vsrc (snd (read_vrow Vf pkgs h vv r k0 vals)) = vsrc r /\
-  forall j, nthq (fst (read_vrow Vf pkgs h vv r k0 vals)) j == nthq vals j * Vcur h vv pk (vr_src r) (k0 + j).
+  forall j, exists T' P', near T' (cur_T h vv) /\ near P' (cur_P h vv) /\
+    nthq (fst (read_vrow Vf pkgs h vv r k0 vals)) j == nthq vals j * Vat h pk (vr_src r) (k0 + j) T' P'.
 Proof.
   intros PK. induction vals as [|x t IH]; intros r k0 OK.
-  - simpl. split; auto. split; auto. intros j. rewrite !nthq_nil. lra.
+  - simpl. split; auto. split; auto. intros j. exists (cur_T h vv), (cur_P h vv).
+    split; [apply near_refl|split; [apply near_refl|]]. rewrite !nthq_nil. lra.
   - cbn [read_vrow]. destruct (qzerob x) eqn:Z.
     + specialize (IH r (S k0) OK).
       destruct (read_vrow Vf pkgs h vv r (S k0) t) as [o r'] eqn:E. cbn [fst snd] in *.
       destruct IH as (A & B & C). split; auto. split; auto.
-      intros [|j]; unfold nthq in *; simpl.
-      * apply qzerob_true in Z. rewrite Z. lra.
-      * rewrite C. replace (k0 + S j)%nat with (S k0 + j)%nat by lia. reflexivity.
-    + destruct (vfactor_ok h vv r k0 pk PK OK) as (FV & FO & FS).
+      intros [|j].
+      * exists (cur_T h vv), (cur_P h vv). split; [apply near_refl|split; [apply near_refl|]].
+        unfold nthq; simpl. apply qzerob_true in Z. rewrite Z. lra.
+      * destruct (C j) as (T' & P' & NT & NP & V). exists T', P'. split; auto. split; auto.
+        unfold nthq in *; simpl. rewrite V. replace (k0 + S j)%nat with (S k0 + j)%nat by lia. reflexivity.
+    + destruct (vfactor_ok h vv r k0 pk PK OK) as ((T0 & P0 & NT0 & NP0 & FV) & FO & FS).
       destruct (vfactor Vf pkgs h vv r k0) as [V r1] eqn:EV. cbn [fst snd] in *.
       specialize (IH r1 (S k0) FO).
       destruct (read_vrow Vf pkgs h vv r1 (S k0) t) as [o r'] eqn:E. cbn [fst snd] in *.
       destruct IH as (A & B & C). split; auto. split; [congruence|].
-      intros [|j]; unfold nthq in *; simpl.
-      * rewrite FV. unfold Vcur. rewrite Nat.add_0_r. reflexivity.
-      * rewrite C. rewrite (vsrc_src _ _ FS).
+      intros [|j].
+      * exists T0, P0. split; auto. split; auto. unfold nthq; simpl. rewrite FV. rewrite Nat.add_0_r. reflexivity.
+      * destruct (C j) as (T' & P' & NT & NP & V'). exists T', P'. split; auto. split; auto.
+        unfold nthq in *; simpl. rewrite V'. rewrite (vsrc_src _ _ FS).
         replace (k0 + S j)%nat with (S k0 + j)%nat by lia. reflexivity.
 Qed.
 
 Lemma read_vrows_ok h vv pk : vv_pkg vv = pk -> forall l, Forall (vrow_ok pk) l ->
   Forall (vrow_ok pk) (snd (read_vrows Vf pkgs h vv l)) /\
   map vsrc (snd (read_vrows Vf pkgs h vv l)) = map vsrc l /\
-  forall n r, nth_error l n = Some r -> forall j,
+  forall n r, nth_error l n = Some r -> forall j, exists T' P', near T' (cur_T h vv) /\ near P' (cur_P h vv) /\
     nthq (nth n (fst (read_vrows Vf pkgs h vv l)) []) j
-      == nthq (getrow h (vr_dct r)) j * Vcur h vv pk (vr_src r) j.
+      == nthq (getrow h (vr_dct r)) j * Vat h pk (vr_src r) j T' P'.
 Proof.
   intros PK. induction l as [|r l IH]; intros OK.
   - simpl. split; auto. split; auto. intros [|n] r H; discriminate.
@@ -505,7 +531,7 @@ Proof.
     destruct (read_vrows Vf pkgs h vv l) as [os rs] eqn:E'. cbn [fst snd] in *.
     split; [constructor; auto|]. split; [simpl; congruence|].
     intros [|n] r0 H j; simpl in H.
-    + inversion H; subst r0. simpl. rewrite C. reflexivity.
+    + inversion H; subst r0. simpl. exact (C j).
     + simpl. apply C'. exact H.
 Qed.
 
@@ -924,17 +950,19 @@ Qed.
 Lemma vol_get_lemma h i s :
   Inv h -> nth_error (streams h) i = Some s ->
   forall n d src, nth_error (srcs h s) n = Some (d, src) -> forall j,
+  exists T' P', near T' (fst (gettp h (tc s))) /\ near P' (snd (gettp h (tc s))) /\
     nthq (nth n (snd (read_vol Vf pkgs h s)) []) j
-    == nthq (getrow h d) j *
-       (1000 * Vf (gid pkgs (pkg s) j) (base (src_phase h src)) (fst (gettp h (tc s))) (snd (gettp h (tc s)))).
+    == nthq (getrow h d) j * (1000 * Vf (gid pkgs (pkg s) j) (base (src_phase h src)) T' P').
 Proof.
   intros I Hs n d src Hn j. unfold read_vol.
   destruct (by_volume_ok h i s I Hs) as (A & B & C & F).
   destruct (read_vrows_ok h (by_volume h s) (pkg s) C _ F) as (_ & _ & V).
   rewrite <- A in Hn. apply nth_error_map_inv in Hn. destruct Hn as (r & Hr & Er).
-  specialize (V n r Hr j).
+  destruct (V n r Hr j) as (T' & P' & NT & NP & VV).
   destruct (read_vrows Vf pkgs h (by_volume h s) (vv_rows (by_volume h s))) as [m rs]. cbn [fst snd] in *.
-  rewrite V. unfold Vcur. rewrite B. unfold vsrc in Er. inversion Er; subst. reflexivity.
+  unfold cur_T, cur_P in NT, NP. rewrite B in NT, NP.
+  exists T', P'. split; [exact NT|split; [exact NP|]].
+  rewrite VV. unfold Vat. unfold vsrc in Er. inversion Er; subst. reflexivity.
 Qed.
 
 Lemma mass_get_lemma h i s :
@@ -1024,6 +1052,169 @@ Proof.
     + assert (NE : a <> d) by (intros Q; subst; contradiction).
       unfold getrow, put_row; simpl. rewrite nth_upd_neq by auto. reflexivity.
     + unfold put_row; simpl. rewrite upd_length. exact L.
+Qed.
+
+(* ---------- F_vol is the sum of the volumetric view ---------- *)
+Lemma vol_row_sum F (f : nat -> Q) : ~ F == 0 -> forall (r : vec) (c : list nat),
+  1000 * qsum (map2 (fun m g => (m / F) * f g) r c) * F == qsum (map2 (fun m g => m * (1000 * f g)) r c).
+Proof.
+  intros NZ. induction r as [|x r IH]; intros [|g c]; simpl; try ring.
+  rewrite <- IH. field. exact NZ.
+Qed.
+
+Lemma F_vol_is_sum h s : ~ F_mol h s == 0 ->
+  F_vol Vf pkgs h s ==
+  qsum (map (fun x => qsum (map2 (fun m g => m * (1000 * Vf g (base (src_phase h (snd x)))
+                                                     (fst (gettp h (tc s))) (snd (gettp h (tc s)))))
+                                 (getrow h (fst x)) (chems pkgs (pkg s)))) (srcs h s)).
+Proof.
+  intros NZ. unfold F_vol. rewrite (proj2 (qzerob_false _) NZ). unfold vmix.
+  set (F := F_mol h s) in *. set (T := fst (gettp h (tc s))). set (P := snd (gettp h (tc s))).
+  induction (srcs h s) as [|x l IH]; simpl; [ring|].
+  rewrite <- IH.
+  rewrite <- (vol_row_sum F (fun g => Vf g (base (src_phase h (snd x))) T P) NZ (getrow h (fst x)) (chems pkgs (pkg s))).
+  ring.
+Qed.
+
+(* ---------- writing through a view and reading the same item back ---------- *)
+Lemma nth_error_srcs_rowrefs h s r d src :
+  nth_error (srcs h s) r = Some (d, src) -> nth_error (rowrefs h s) r = Some d.
+Proof.
+  unfold srcs, rowrefs. destruct (multi s).
+  - generalize (map Fixed (phs s)). generalize (getarr h (sdata s)). intros l. revert r.
+    induction l as [|a l IH]; intros r [|b m] H; destruct r; simpl in *; try discriminate.
+    + inversion H; auto.
+    + eapply IH; eauto.
+  - destruct r as [|[|r]]; simpl; intros H; inversion H; auto.
+Qed.
+
+Lemma by_mass_cached h s : (cch s < length (caches h))%nat ->
+  c_mass (getcache (fst (by_mass h s)) (cch s)) = Some (snd (by_mass h s)).
+Proof.
+  intros L. unfold by_mass. destruct (c_mass (getcache h (cch s))) as [v|] eqn:E; simpl; auto.
+  rewrite getcache_put_eq by auto. reflexivity.
+Qed.
+
+Lemma by_volume_store h s v : (cch s < length (caches h))%nat -> by_volume (store_vol h s v) s = v.
+Proof.
+  intros L. unfold by_volume, store_vol. rewrite getcache_put_eq by auto. simpl.
+  rewrite vol_find_put_eq. reflexivity.
+Qed.
+
+Lemma in_equilibrium_refl T P : in_equilibrium T P T P = true.
+Proof. unfold in_equilibrium. rewrite !qltb_refl_near. reflexivity. Qed.
+
+Lemma vfactor_again h h2 vv vv2 r k :
+  tps h2 = tps h -> boxes h2 = boxes h -> vv_tp vv2 = vv_tp vv -> vv_pkg vv2 = vv_pkg vv ->
+  vfactor Vf pkgs h2 vv2 (snd (vfactor Vf pkgs h vv r k)) k = vfactor Vf pkgs h vv r k.
+Proof.
+  intros ET EB E1 E2. unfold vfactor. rewrite E1, E2.
+  assert (G : gettp h2 (vv_tp vv) = gettp h (vv_tp vv)) by (unfold gettp; rewrite ET; reflexivity).
+  assert (B : forall x, src_phase h2 x = src_phase h x) by (intros [p|b]; simpl; auto; unfold getbox; rewrite EB; reflexivity).
+  rewrite G.
+  set (T := fst (gettp h (vv_tp vv))). set (P := snd (gettp h (vv_tp vv))).
+  destruct (memo_get k (vr_memo r)) as [e|] eqn:M.
+  - destruct (phase_eqb (me_ph e) (src_phase h (vr_src r)) && in_equilibrium (me_T e) (me_P e) T P) eqn:C;
+      cbn [fst snd vr_memo vr_src vr_dct]; rewrite B.
+    + rewrite M, C. reflexivity.
+    + cbn [memo_get]. rewrite Nat.eqb_refl. cbn [me_ph me_T me_P me_V].
+      rewrite phase_eqb_refl, in_equilibrium_refl. reflexivity.
+  - cbn [fst snd vr_memo vr_src vr_dct]. rewrite B. cbn [memo_get]. rewrite Nat.eqb_refl.
+    cbn [me_ph me_T me_P me_V]. rewrite phase_eqb_refl, in_equilibrium_refl. reflexivity.
+Qed.
+
+Lemma set_item_streams h s w r k v : streams (fst (set_item Vf MWf pkgs h s w r k v)) = streams h.
+Proof.
+  unfold set_item. destruct w.
+  - destruct (nth_error (rowrefs h s) r); reflexivity.
+  - unfold by_mass. destruct (c_mass (getcache h (cch s))); cbn [fst snd];
+      match goal with |- context [nth_error ?l r] => destruct (nth_error l r) end; reflexivity.
+  - destruct (nth_error (vv_rows (by_volume h s)) r) as [vr|]; [|reflexivity].
+    destruct (qzerob v); [reflexivity|].
+    destruct (vfactor Vf pkgs h (by_volume h s) vr k) as [V vr']. reflexivity.
+Qed.
+
+Hypothesis MW_nonzero : forall g, ~ MWf g == 0.
+Hypothesis Vf_nonzero : forall g p T P, ~ Vf g p T P == 0.
+
+Lemma set_get_item h i s w r k v d src :
+  Inv h -> nth_error (streams h) i = Some s -> nth_error (srcs h s) r = Some (d, src) ->
+  (d < length (rows h))%nat -> (k < length (getrow h d))%nat ->
+  snd (set_item Vf MWf pkgs h s w r k v) = XNone /\
+  exists h2 x, get_item Vf MWf pkgs (fst (set_item Vf MWf pkgs h s w r k v)) s w r k = (h2, Ok x) /\ x == v.
+Proof.
+  intros I Hs Hr D K.
+  destruct (I i s Hs) as ((WC & WA) & _ & _).
+  destruct w.
+  - (* molar data *)
+    pose proof (nth_error_srcs_rowrefs h s r d src Hr) as RR.
+    unfold set_item. rewrite RR. cbn [fst snd]. split; [reflexivity|].
+    unfold get_item. change (rowrefs (put_item h d k v) s) with (rowrefs h s). rewrite RR.
+    eexists _, _. split; [reflexivity|]. apply getrow_put_item_eq; auto.
+  - (* mass view *)
+    unfold set_item.
+    destruct (inv_by_mass h i s I Hs) as (_ & (A & B) & R & _).
+    pose proof (by_mass_cached h s WC) as CM.
+    destruct (by_mass h s) as [h1 mv] eqn:BM. cbn [fst snd] in *.
+    rewrite <- A in Hr. rewrite Hr. cbn [fst snd]. split; [reflexivity|].
+    unfold get_item.
+    assert (BM2 : by_mass (put_item h1 d k (v / MWf (gid pkgs (mv_pkg mv) k))) s
+                  = (put_item h1 d k (v / MWf (gid pkgs (mv_pkg mv) k)), mv)).
+    { unfold by_mass.
+      change (getcache (put_item h1 d k (v / MWf (gid pkgs (mv_pkg mv) k))) (cch s)) with (getcache h1 (cch s)).
+      rewrite CM. reflexivity. }
+    rewrite BM2, Hr. cbn [fst].
+    eexists _, _. split; [reflexivity|].
+    rewrite getrow_put_item_eq.
+    + field. apply MW_nonzero.
+    + rewrite R; auto.
+    + unfold getrow. rewrite R. exact K.
+  - (* volumetric view *)
+    unfold set_item.
+    destruct (by_volume_ok h i s I Hs) as (A & B & C & F).
+    rewrite <- A in Hr. apply nth_error_map_inv in Hr. destruct Hr as (vr & Hvr & Evr).
+    rewrite Hvr.
+    assert (DV : vr_dct vr = d) by (unfold vsrc in Evr; inversion Evr; auto).
+    assert (LR : (r < length (vv_rows (by_volume h s)))%nat) by (eapply nth_error_lt; eauto).
+    destruct (qzerob v) eqn:Z.
+    + cbn [fst snd]. split; [reflexivity|]. unfold get_item.
+      change (by_volume (put_item (store_vol h s (by_volume h s)) (vr_dct vr) k 0) s)
+        with (by_volume (store_vol h s (by_volume h s)) s).
+      rewrite by_volume_store by auto. rewrite Hvr.
+      assert (X0 : nthq (getrow (put_item (store_vol h s (by_volume h s)) (vr_dct vr) k 0) (vr_dct vr)) k == 0).
+      { rewrite DV. apply getrow_put_item_eq; auto. }
+      rewrite (proj2 (qzerob_true _) X0).
+      eexists _, _. split; [reflexivity|]. apply qzerob_true in Z. rewrite Z. reflexivity.
+    + assert (OKr : vrow_ok (pkg s) vr).
+      { apply (proj1 (Forall_forall _ _) F). eapply nth_error_In; eauto. }
+      destruct (vfactor_ok h (by_volume h s) vr k (pkg s) C OKr) as ((T' & P' & _ & _ & FV) & _ & FS).
+      pose proof (vfactor_again h
+                    (put_item (store_vol h s (mkvv (upd (vv_rows (by_volume h s)) r (snd (vfactor Vf pkgs h (by_volume h s) vr k)))
+                                                  (vv_tp (by_volume h s)) (vv_pkg (by_volume h s))))
+                              (vr_dct vr) k (v / fst (vfactor Vf pkgs h (by_volume h s) vr k)))
+                    (by_volume h s)
+                    (mkvv (upd (vv_rows (by_volume h s)) r (snd (vfactor Vf pkgs h (by_volume h s) vr k)))
+                          (vv_tp (by_volume h s)) (vv_pkg (by_volume h s)))
+                    vr k eq_refl eq_refl eq_refl eq_refl) as AG.
+      destruct (vfactor Vf pkgs h (by_volume h s) vr k) as [V vr'] eqn:EV. cbn [fst snd] in *.
+      split; [reflexivity|]. unfold get_item.
+      set (vv' := mkvv (upd (vv_rows (by_volume h s)) r vr') (vv_tp (by_volume h s)) (vv_pkg (by_volume h s))) in *.
+      change (by_volume (put_item (store_vol h s vv') (vr_dct vr) k (v / V)) s)
+        with (by_volume (store_vol h s vv') s).
+      rewrite by_volume_store by auto.
+      assert (Hvr' : nth_error (vv_rows vv') r = Some vr') by (unfold vv'; simpl; apply nth_error_upd_same; auto).
+      rewrite Hvr'.
+      assert (DV' : vr_dct vr' = vr_dct vr) by (unfold vsrc in FS; inversion FS; auto).
+      rewrite DV'.
+      assert (VNZ : ~ V == 0).
+      { rewrite FV. unfold Vat. intros Q0. apply (Vf_nonzero (gid pkgs (pkg s) k) (base (src_phase h (vr_src vr))) T' P'). lra. }
+      assert (X1 : nthq (getrow (put_item (store_vol h s vv') (vr_dct vr) k (v / V)) (vr_dct vr)) k == v / V).
+      { rewrite DV. apply getrow_put_item_eq; auto. }
+      assert (XNZ : ~ nthq (getrow (put_item (store_vol h s vv') (vr_dct vr) k (v / V)) (vr_dct vr)) k == 0).
+      { rewrite X1. intros Q0. apply qzerob_false in Z. apply Z.
+        assert (E : v == (v / V) * V) by (field; exact VNZ). rewrite E, Q0. ring. }
+      rewrite (proj2 (qzerob_false _) XNZ). rewrite AG.
+      eexists _, _. split; [reflexivity|]. rewrite X1. field. exact VNZ.
 Qed.
 
 End Proofs.
